@@ -47,6 +47,7 @@ LxTab == [
   sinh |-> Lexeme(Name("sinh", TRUE), <<"s", "i", "n", "h">>), abs |-> Lexeme(Name("abs", TRUE), <<"a", "b", "s">>),
   f |-> Lexeme(Name("f", TRUE), One("f")), Sin |-> Lexeme(Name("Sin", TRUE), <<"S", "i", "n">>),
   si |-> Lexeme(Name("si", TRUE), <<"s", "i">>),
+  u |-> Lexeme(Name("u", TRUE), One("u")), v |-> Lexeme(Name("v", TRUE), One("v")),
   k |-> Lexeme(Name("k", TRUE), One("k")), m |-> Lexeme(Name("m", TRUE), One("m")), q |-> Lexeme(Name("q", TRUE), One("q")) ]
 Ids == DOMAIN LxTab
 RECURSIVE Join(_, _)
@@ -65,10 +66,18 @@ ASSUME LET h == <<"a">> IN
 
 \* ---------------------------------------------------------------- option space
 Baseline == [fmode |-> "off", req |-> "none", forb |-> "none", instr |-> "none", userf |-> TRUE, consts |-> "userc",
-             numb |-> TRUE, metric |-> FALSE, ans |-> "partial"]
+             numb |-> TRUE, metric |-> FALSE, ans |-> "partial", route |-> "direct"]
 DimDom == [fmode : {"off", "bsin", "bsincos", "wcos", "wsinh", "wnone"}, req : {"none", "cos", "f"},
            forb : {"none", "times0", "plus2", "sin"}, instr : {"none", "z", "c", "pi"}, userf : BOOLEAN,
-           consts : {"userc", "std", "delpi"}, numb : BOOLEAN, metric : BOOLEAN, ans : {"plain", "exempt", "partial"}]
+           consts : {"userc", "std", "delpi"}, numb : BOOLEAN, metric : BOOLEAN, ans : {"plain", "exempt", "partial"},
+           route : IF Part = "list" THEN {"direct", "sampler", "chain", "mdirect", "msampler", "mchain"} ELSE {"direct"}]
+(* route (ordered lists only): how the author's configuration of the second box reaches the first input --
+   "direct"   the answer mentions sibling_1;
+   "sampler"  the answer mentions the instructor variable u only, u has the dependent sampling set  sibling_1 * 1;
+   "chain"    u depends on v (v - 1), v depends on sibling_1 (sibling_1 + 1), both instructor variables;
+   "m..."     the same with a MatrixGrader as the subgrader of the second box. *)
+UsesSampler(d) == d.route \in {"sampler", "chain", "msampler", "mchain"}
+UsesChain(d) == d.route \in {"chain", "mchain"}
 Weight(d) == Cardinality({fld \in DOMAIN Baseline : d[fld] # Baseline[fld]})
 HasVars == Part # "numerical"
 \* the baseline has a half-credit alternative answer (entry-wise partial credit for matrices; summations have none)
@@ -77,6 +86,7 @@ WeightP(d) == Cardinality({fld \in DOMAIN BaseD : d[fld] # BaseD[fld]})
 ValidDims(d) ==
   /\ WeightP(d) <= MaxDims
   /\ ~HasVars => (d.numb = FALSE /\ d.instr # "z")
+  /\ Part # "list" => d.route = "direct"
   /\ Part = "sum" => d.ans # "partial"                        \* a summation has one answer
   /\ d.instr = "c" => d.consts = "userc"                      \* an instructor constant must exist
   /\ (d.instr = "pi" => d.consts # "delpi")
@@ -86,7 +96,7 @@ Val(n_, d_) == [k |-> "v", q |-> <<n_, d_>>]
 \* values at the single sampling point (integers, pairwise different, so that no accidental equality arises)
 ValTab == ( "x" :> Val(2, 1) @@ "y" :> Val(5, 1) @@ "z" :> Val(3, 1) @@ "a" :> Val(7, 1) @@ "c" :> Val(11, 1)
          @@ "pi" :> FIN @@ "e" :> FIN @@ "i" :> NPV @@ "j" :> NPV @@ "infty" :> NPV
-         @@ "sibling_1" :> Val(12, 1) )
+         @@ "sibling_1" :> Val(12, 1) @@ "sibling_2" :> NPV )
 Forb == ( "none" :> {} @@ "times0" :> {<<"*", "0">>} @@ "plus2" :> {<<"+", "SP", "2">>} @@ "sin" :> {<<"s", "i", "n">>} )
 
 \* author's answers (token ids), per kind
@@ -108,7 +118,7 @@ BaseIds(b) == IF b = "C1" THEN Cor1 ELSE IF b = "C2" THEN Cor2 ELSE IF b = "P" T
 ExemptTail(d) == <<"pl", "sin", "lp", "n0", "rp", "ti", "n0">>
                  \o (IF HasVars THEN <<"pl", "z", "mi", "z">> ELSE <<>>)
                  \o (IF d.consts = "userc" THEN <<"pl", "c", "mi", "c">> ELSE <<>>)
-AuthorMain(d) == (IF Part = "list" THEN <<"sib1", "pl", "y">> ELSE Cor1)
+AuthorMain(d) == (IF Part = "list" THEN (IF UsesSampler(d) THEN <<"u", "pl", "y">> ELSE <<"sib1", "pl", "y">>) ELSE Cor1)
                  \o (IF d.ans = "exempt" THEN ExemptTail(d) ELSE <<>>)
 Vec2(ids, second) == <<"lb">> \o ids \o <<"cm">> \o second \o <<"rb">>          \* matrix kind: a 2-vector
 AnswerIds(d) ==                                                  \* sequence of [boxes (seq of id seqs), g]
@@ -119,11 +129,17 @@ AnswerIds(d) ==                                                  \* sequence of 
 
 CfgOf(d) ==
   [kind |-> Part,
-   vars |-> IF HasVars THEN {"x", "y", "z"} ELSE {},
+   vars |-> (IF HasVars THEN {"x", "y", "z"} ELSE {})
+            \cup (IF UsesSampler(d) THEN {"u"} ELSE {}) \cup (IF UsesChain(d) THEN {"v"} ELSE {}),
    consts |-> ({"pi", "e", "i", "j"} \ (IF d.consts = "delpi" THEN {"pi"} ELSE {}))
               \cup (IF d.consts = "userc" THEN {"c"} ELSE {}) \cup (IF Part = "sum" THEN {"infty"} ELSE {}),
-   instr |-> IF d.instr = "none" THEN {} ELSE {d.instr},
-   sibs |-> IF Part = "list" THEN {"sibling_1"} ELSE {},
+   instr |-> (IF d.instr = "none" THEN {} ELSE {d.instr})
+             \cup (IF UsesSampler(d) THEN {"u"} ELSE {}) \cup (IF UsesChain(d) THEN {"v"} ELSE {}),
+   sibs |-> IF Part = "list" THEN {"sibling_1", "sibling_2"} ELSE {},
+   deps |-> IF UsesChain(d) THEN {[s |-> "v", box |-> Box(<<"sib1", "pl", "n1">>, "tight")],
+                                  [s |-> "u", box |-> Box(<<"v", "mi", "n1">>, "tight")]}
+            ELSE IF UsesSampler(d) THEN {[s |-> "u", box |-> Box(<<"sib1", "ti", "n1">>, "tight")]}
+            ELSE {},
    numbered |-> IF d.numb THEN {[s |-> "a", ch |-> <<"a">>]} ELSE {},
    defaultFuncs |-> {"sin", "cos", "sinh", "abs", "tan", "exp", "sqrt", "cosh", "arctan", "arcsin", "tanh"},
    userFuncs |-> IF d.userf THEN {"f"} ELSE {},
@@ -183,7 +199,8 @@ NRQuick == { <<"sin", "fn0">>, <<"sinh", "fn0">>, <<"cos", "fn0">>, <<"f", "fn0"
 NRRich == NRQuick \cup
           { <<"abs", "fn0">>, <<"si", "fn0">>, <<"sin", "var">>, <<"a", "var">>, <<"am2", "var">>, <<"am0", "var">>,
             <<"A1", "var">>, <<"sib2", "var">>, <<"q", "suf">>, <<"pct", "suf">>, <<"z", "fn0">>, <<"n", "var">> }
-NR == IF Rich THEN NRRich ELSE NRQuick
+NR == (IF Rich THEN NRRich ELSE NRQuick)
+      \cup (IF Part = "list" THEN {<<"u", "var">>, <<"sib2", "var">>, <<"sib1", "fnx">>} ELSE {})
 Forms == IF Rich THEN {"mul0", "0mul", "cancel", "pow0", "bare"} ELSE {"mul0", "cancel"}
 Positions == (IF Rich THEN {"add", "front", "expo", "arg", "one"} ELSE {"add", "expo", "arg"})
              \cup (IF Part = "matrix" THEN {"arr"} ELSE {}) \cup (IF Part = "sum" THEN {"lower"} ELSE {})
@@ -219,8 +236,12 @@ ControlOK(d, b, nm, o) ==
    o.allowed = (IF b = "C1" THEN {"credit"}
                 ELSE IF b = "P" THEN (IF d.ans # "plain" THEN {"partial"} ELSE {"zero"})
                 ELSE IF b = "W" THEN {"zero"} ELSE o.allowed)
+\* the route by which the configuration reaches the sibling input changes nothing for a submission that does not
+\* mention the sampler variables: same facts as with the sibling named in the answer and a FormulaGrader subgrader
+RouteOK(d, bx, F, nm) ==
+  (d.route # "direct" /\ nm # "u") => Facts(CfgOf([d EXCEPT !.route = "direct"]), bx) = F
 Broken(d, cfg, bx, F, o, b, nm, form) ==
-  {law \in {"Must", "NoCredit", "Scope", "Blanks", "OnlyRestr", "OutDomain", "Neutral", "Control"} :
+  {law \in {"Must", "NoCredit", "Scope", "Blanks", "OnlyRestr", "OutDomain", "Neutral", "Control", "Route"} :
      ~ CASE law = "Must" -> LawRejectFamilyF(F)
          [] law = "NoCredit" -> LawRestrictedNoCreditF(F)
          [] law = "Scope" -> LawScopeUnconditionalF(F)
@@ -228,6 +249,7 @@ Broken(d, cfg, bx, F, o, b, nm, form) ==
          [] law = "OnlyRestr" -> LawOnlyRestrictionsRefuseF(cfg, bx, F)
          [] law = "OutDomain" -> (o.allowed \subseteq ErrFamily \cup Graded /\ o.allowed # {})
          [] law = "Neutral" -> NeutralOK(cfg, bx, b, nm, form)
+         [] law = "Route" -> RouteOK(d, bx, F, nm)
          [] OTHER -> ControlOK(d, b, nm, o)}
 OutOf(d, sub, sp, b, nm, form) ==
   LET cfg == CfgOf(d) bx == LexBoxes(sub, sp) F == Facts(cfg, bx) o == OutcomeF(F) IN
@@ -252,6 +274,9 @@ LawOnlyRestr == "OnlyRestr" \notin out.broken  \* without the restrictions: same
 LawOutDomain == "OutDomain" \notin out.broken  \* allowed sets are non-empty sets of known classes
 LawNeutral == "Neutral" \notin out.broken      \* the cheating templates really are neutral
 LawControl == "Control" \notin out.broken      \* unrestricted control formulas are graded as the answers say
+LawRoute == "Route" \notin out.broken          \* sibling reached by answer / sampler / chain / MatrixGrader: same outcome
+LawSiblings == /\ LawSiblingsHidden(CfgOf(c.d))  \* no sibling input in the student's scope, and every list
+               /\ (Part = "list" => SiblingsReached(CfgOf(c.d)) = {"sibling_1"})   \* configuration does reach sibling_1
 LawPerm == LawPermitted(CfgOf(c.d))            \* algebra of blacklist / whitelist / whitelist=[None]
 LawExempt == LawAuthorExempt(CfgOf(c.d))       \* every author answer has a value in the author's scope
 =============================================================================
